@@ -11,7 +11,7 @@ def fam_frames():
         fam = H.Family("frame-analysis")
         sites = frames.analyse(prog)
         for i, s in enumerate(sites):
-            ob = H.Obl(f"{s.name()}@{i}", ["C10"] + (["C09"] if s.rule.startswith("F4") else []), [], z3.BoolVal(bool(s.ok)),
+            ob = H.Obl(f"{s.name()}@{i}", ["C10"] + (["C09"] if s.rule.startswith(("F4", "F5")) else []), [], z3.BoolVal(bool(s.ok)),
                        kind="frame", info=f"{s.text} -- {s.why}")
             fam.obls.append(ob)
         fam.paths = len(sites)
